@@ -36,8 +36,10 @@ pub fn run_sat(case: &Value, _seed: u64) -> Outcome {
         // text of the field
         let text = case["f"].as_array().unwrap().iter().map(|e| e.as_array().unwrap().iter().map(|a| {
             let n = if a["q"].as_u64() == Some(1) { format!("{}:any", names[a["pkg"].as_str().unwrap()]) } else { names[a["pkg"].as_str().unwrap()].to_string() };
+            // q = 2, 3: the alternative carries build-profile / architecture restrictions (written after the version)
+            let deco = match a["q"].as_u64() { Some(2) => " <cross>", Some(3) => " [amd64 !i386] <!nocheck> <stage1 cross>", _ => "" };
             let op = a["op"].as_u64().unwrap() as usize;
-            if op == 0 { n.to_string() } else { format!("{} ({} {})", n, OPS[op], ver(a["req"].as_u64().unwrap())) }
+            if op == 0 { format!("{}{}", n, deco) } else { format!("{} ({} {}){}", n, OPS[op], ver(a["req"].as_u64().unwrap()), deco) }
         }).collect::<Vec<_>>().join(" | ")).collect::<Vec<_>>().join(", ");
         let mut installed: HashMap<String, Version> = HashMap::new();
         for (p, r) in case["i"].as_object().unwrap() {
@@ -146,6 +148,19 @@ pub fn run_lossy_rt(case: &Value, _seed: u64) -> Outcome {
             }
             Ok(Err(e)) => o.v("C14", "lossless_reads_same", "Relations::from_str", "mismatch", &feats, &printed, format!("printed value rejected: {}", e)),
             Err(msg) => o.v("C14", "lossless_reads_same", "Relations::from_str", "panic", &feats, &printed, msg),
+        }
+        // 3b. / 4b. the same conversions entry by entry (a list of alternatives <-> an Entry): order and text are kept
+        for e in value.0.iter() {
+            if e.is_empty() { continue; }
+            let es = e.iter().map(|x| x.to_string()).collect::<Vec<_>>().join(" | ");
+            let e1 = e.clone();
+            match guarded("lossless::Entry::from(Vec<lossy::Relation>)", move || { let l: ll::Entry = e1.into(); let s = l.to_string(); let b: Vec<lossy::Relation> = l.into(); (s, b) }) {
+                Ok((s, back)) => {
+                    if s != es { o.v("C14", "convert_prints_same", "lossless::Entry::from(Vec<lossy::Relation>)", "mismatch", &feats, &es, format!("lossless entry prints {:?}", s)); }
+                    if back != *e { o.v("C14", "convert_back", "Vec<lossy::Relation>::from(lossless::Entry)", "mismatch", &feats, &es, format!("back {:?} != {:?}", back, e)); }
+                }
+                Err(msg) => o.v("C14", "convert", "lossless::Entry::from(Vec<lossy::Relation>)", "panic", &feats, &es, msg),
+            }
         }
         // 3. / 4. conversions, relation by relation
         for e in value.0.iter() {
